@@ -143,6 +143,63 @@ def spawnxCmd (childFirst : Bool) (ncalls argbase : Nat) (names : List String) :
   let showL (l : List String) := if l.isEmpty then "-" else ",".intercalate l
   s!"ret {showL rets} ran {showL ran} children {final.children}"
 
+/-- `spawnm childFirst argbase M {k namehex*k}*M ncalls inst*ncalls`: several module instances in one process, each
+    with its own export table (export `j` of instance `i` has the marker `100·i + j`); the calls are issued one
+    after the other by the named instances, every started thread runs before the next call.  The start function
+    of a call is `lookupCall prev table` (the model of the lookup including the storage class of its result).
+    answer: `ret r,…` ` ran callerInst:entryInst:entryExport:tid:arg:childOk,…` ` children N` -/
+def spawnmCmd (childFirst : Bool) (argbase : Nat) (tables : List (List String)) (callers : List Nat) : String :=
+  let tbls : List ExportTable := tables.zipIdx.map fun (names, i) => names.zipIdx.map fun (n, j) => (n, 100 * i + j)
+  let step (acc : Sys × Option Nat × List String × Nat) (who : Nat) : Sys × Option Nat × List String × Nat :=
+    let (s, prev, ran, j) := acc
+    let entry := lookupCall prev (tbls.getD who [])
+    let has := entry.isSome
+    let arg := argbase + j
+    match exec has s (.call arg) with
+    | none => (s, entry, ran, j + 1)
+    | some s1 =>
+      let i := s1.calls.length - 1
+      let rec go (fuel : Nat) (s : Sys) : Sys :=
+        match fuel with
+        | 0 => s
+        | fuel + 1 => match nextAction s i with
+          | some a => match exec has s a with
+            | some s' => go fuel s'
+            | none => s
+          | none => s
+      let s2 := go 8 s1
+      if has then
+        match exec has s2 (.run (s2.threads.length - 1)) with
+        | some s3 =>
+          let r := match s3.threads.getLast? with
+            | some t => [s!"{who}:{entry.getD 0 / 100}:{entry.getD 0 % 100}:{t.tid}:{t.arg}:{if t.child < s3.children then 1 else 0}"]
+            | none => []
+          (s3, entry, ran ++ r, j + 1)
+        | none => (s2, entry, ran, j + 1)
+      else (s2, entry, ran, j + 1)
+  let (final, _, ran, _) := callers.foldl step (Sys.initial, none, [], 0)
+  let retOuts := final.calls.map fun c => match c with
+    | .done _ (some t) => spawnReturn childFirst t
+    | _ => (.val 4294967295 : Out Nat)
+  if retOuts.any (fun o => match o with | .ub _ => true | _ => false) then "ub useAfterFree" else
+  let rets := retOuts.map fun o => match o with
+    | .val 4294967295 => "-1"
+    | .val t => toString t
+    | _ => "?"
+  let showL (l : List String) := if l.isEmpty then "-" else ",".intercalate l
+  s!"ret {showL rets} ran {showL ran} children {final.children}"
+
+/-- parse `{k namehex*k}*M` -/
+def parseTables : Nat → List String → Option (List (List String) × List String)
+  | 0, rest => some ([], rest)
+  | m + 1, k :: rest => do
+    let k ← k.toNat?
+    if rest.length < k then none else
+    let names ← (rest.take k).mapM fun h => (unhex h).map fun b => String.ofList (b.map fun c => Char.ofNat c.toNat)
+    let (more, rest') ← parseTables m (rest.drop k)
+    some (names :: more, rest')
+  | _, [] => none
+
 def procCmd (ws : List String) : Option String :=
   match ws with
   | "argsx" :: msize :: p :: b :: cP :: sP :: argc :: n :: rest => do
@@ -169,6 +226,17 @@ def procCmd (ws : List String) : Option String :=
       | .val (e2, m2) => some s!"{e1} {cnt} {sz} {e2} {showMem m2}"
       | _ => some "oof"
     | _ => some "oof"
+  | "spawnm" :: cf :: ab :: m :: rest => do
+    let cf ← cf.toNat?
+    let ab ← ab.toNat?
+    let m ← m.toNat?
+    let (tables, rest') ← parseTables m rest
+    match rest' with
+    | n :: callers => do
+      let n ← n.toNat?
+      let callers ← callers.mapM String.toNat?
+      if callers.length ≠ n then none else some (spawnmCmd (cf != 0) ab tables callers)
+    | [] => none
   | "spawnx" :: n :: ab :: k :: rest => do
     let n ← n.toNat?
     let ab ← ab.toNat?
